@@ -455,7 +455,21 @@ class Gen:
             for _ in range(r.randint(1, 3)):
                 fields.append(self.decorate({'name': self.name('f'), 'id': self.n, 'type': r.choice(const_types)}))
             self.hit('group.const_only_entry' + ('_leaf' if leaf_only else ''))
+        enum_types = [ty for ty in pool if self.find(types, ty)['k'] == 'enum']
         for _ in range(0 if const_only else r.randint(0, 5)):
+            if enum_types and self.maybe(0.12):
+                # field-level constant: `presence="constant" valueRef="Enum.Value"` (takes no space, has no setter,
+                # is not visited); either typed by the enum itself or by the enum's primitive encoding
+                e = self.find(types, r.choice(enum_types))
+                v = r.choice(e['values'])
+                ty = e['name']
+                if e['enc'] in PRIM_SIZE and self.maybe(0.4):
+                    ty = e['enc']
+                    self.hit('field.constant_valueRef_primitive')
+                fields.append(self.decorate({'name': self.name('f'), 'id': self.n, 'type': ty, 'presence': 'constant',
+                                             'valueRef': '%s.%s' % (e['name'], v['name'])}))
+                self.hit('field.constant_valueRef')
+                continue
             if self.maybe(0.3):
                 ty = r.choice(PRIMS)
                 f = {'name': self.name('f'), 'id': self.n, 'type': ty}
@@ -513,8 +527,12 @@ class Gen:
         bo = r.choice(['littleEndian', 'bigEndian'])
         self.hit('byteOrder.' + bo)
         hdr_prim = lambda: r.choice(UNSIGNED[1:]) if self.hdr_variants else 'uint16'  # noqa: E731
-        types.append(self.header('messageHeader', [('blockLength', hdr_prim()), ('templateId', hdr_prim()),
-                                                   ('schemaId', hdr_prim()), ('version', hdr_prim())], types))
+        hdr_name = 'messageHeader'
+        if self.hdr_variants and self.maybe(0.2):
+            hdr_name = self.name('Hdr')
+            self.hit('hdr.custom_headerType')
+        types.append(self.header(hdr_name, [('blockLength', hdr_prim()), ('templateId', hdr_prim()),
+                                            ('schemaId', hdr_prim()), ('version', hdr_prim())], types))
         dims = []
         for _ in range(2):
             bl, nu = r.choice(UNSIGNED), r.choice(UNSIGNED)
@@ -537,6 +555,8 @@ class Gen:
             msgs.append(self.decorate(m, semantic=True))
         out = {'package': 'vs', 'id': r.randint(0, 60000), 'version': self.version, 'byteOrder': bo,
                'types': types, 'messages': msgs}
+        if hdr_name != 'messageHeader':
+            out['headerType'] = hdr_name
         if self.maybe(0.5):
             out['semanticVersion'] = r.choice(['5.2', '1.0.0', 'v7'])
         if self.maybe(0.5):
